@@ -504,6 +504,10 @@ class Fn:
                             self.restorer_drops.add(ap)
                     if k == "call" and fn.get("path") in RAW_MOVES and re.search(r"/#\d", " ".join(fn.get("args", []))):
                         self.raw_sites.append((t["span"], fn["path"], s8, bb))
+                    if k == "drop" and s8[0] in ("Z", "V") and re.match(r"^[A-Z]\w*/#\d+$", t["ty"]) and any(e["k"] == "deref" for e in t["p"]["proj"]):
+                        # `*slot = e` / drop_in_place through a pointer while the buffer is hidden: the slot holds a bitwise
+                        # duplicate (or nothing), dropping it drops a live element a second time
+                        self.reports.append(("R-HIDE", "drop-in-place", "drops an element in place through a reference into the buffer while the Vec length is lowered (assignment `*slot = x` instead of ptr::write): the slot holds a bitwise copy of a live element", t["span"]))
                     if self.cx.term_may_unwind(t):
                         unwind_state = s8
                         if k == "call" and fn.get("name") in POST_STATE_UNWIND and self._is_write_term(t) and afters:
@@ -821,7 +825,83 @@ def r_shape(f):
                     RS.fail(b.ident, "jump:%s" % nm, "%s advances the drain's embedded cursor with %s: the elements jumped over are neither yielded nor dropped, and the destructor then overwrites them (leak)" % (b.ident, nm), b.where(sp))
                 if not bad and reads < steps:
                     RS.fail(b.ident, "no-read", "%s steps the embedded cursor without reading the element out" % b.ident, b.where())
+    # R-DRAINORDER: once the restorer has started moving elements, nothing may step the drain's cursor any more
+    # (the cursor still points at old-layout slots that the compaction refills)
+    RO = Result("R-DRAINORDER")
+    for ap, db in cx.drop_of.items():
+        if not is_shape_writer(cx, db):
+            continue
+        raw_blocks = [bi for bi, t, fn in db.calls() if fn and fn["path"] in RAW_MOVES and re.search(r"/#\d", " ".join(fn.get("args", [])))]
+        if not raw_blocks:
+            continue
+        steppers = []
+        for bi, t, fn in db.calls():
+            if not fn:
+                continue
+            st_ = (fn.get("self_ty") or "") + " " + " ".join(fn.get("args", []))
+            if (fn.get("trait") or "").endswith("Iterator") and re.search(r"(toodee::DrainCol<|iter::(Col|ColMut|Rows|RowsMut)<)", st_) and fn["name"] not in ("size_hint", "len"):
+                steppers.append((bi, t, fn))
+        bad = []
+        for bi, t, fn in steppers:
+            for rb in raw_blocks:
+                if bi in db.reachable(rb) and bi != rb:
+                    bad.append((fn["name"], t["span"]))
+        RO.inst(db.ident, "the drain's cursor is only stepped before the first block move (%d stepping calls, %d raw moves)" % (len(steppers), len(raw_blocks)), not bad)
+        for nm, sp in bad[:1]:
+            RO.fail(db.ident, "step-after-move:%s" % nm, "%s steps the drain (%s) after it has started compacting the buffer: the cursor still addresses the old layout, so un-yielded elements are overwritten undropped and live elements are read out and dropped" % (db.ident, nm), db.where(sp))
+    # R-STALE: buffer addressing must not be computed from a dimension field that the function has already overwritten
+    RT = Result("R-STALE")
+    ADDR = ("drain", "rotate_left", "rotate_right", "index", "index_mut", "split_at", "split_at_mut", "add", "sub", "copy", "copy_nonoverlapping",
+            "from_raw_parts", "from_raw_parts_mut", "truncate", "get_unchecked", "get_unchecked_mut", "split_off")
+    for b in writers:
+        fnx = Fn(cx, b)
+        stores = {}          # field -> [(block, stmt index)]
+        for bi, si, st in b.stmts():
+            if st["k"] == "assign":
+                fld = fnx.dim_field(st["p"])
+                if fld is not None:
+                    stores.setdefault(fld, []).append((bi, si))
+        if not stores:
+            continue
+        tainted = {}         # local -> (field, span)
+        for bi, si, st in b.stmts():
+            if st["k"] == "assign" and st["rv"]["k"] == "use" and st["rv"]["o"]["k"] in ("copy", "move"):
+                fld = fnx.dim_field(st["rv"]["o"]["p"])
+                if fld is not None and not st["p"]["proj"]:
+                    after = any((sb == bi and ss < si) or (sb != bi and bi in b.reachable(sb)) for (sb, ss) in stores.get(fld, []))
+                    if after:
+                        tainted[st["p"]["local"]] = (fld, st["span"])
+        # propagate through arithmetic on single-definition temporaries
+        changed = True
+        while changed:
+            changed = False
+            for bi, si, st in b.stmts():
+                if st["k"] != "assign" or st["p"]["proj"] or st["p"]["local"] in tainted:
+                    continue
+                rv = st["rv"]
+                ops = [rv.get("o"), rv.get("l"), rv.get("r")] + list(rv.get("fields", []))
+                for o in ops:
+                    if o and o["k"] in ("copy", "move") and o["p"]["local"] in tainted:
+                        tainted[st["p"]["local"]] = tainted[o["p"]["local"]]
+                        changed = True
+                        break
+        nread = len(tainted)
+        bad = []
+        for bi, t, fn in b.calls():
+            if not fn or fn["name"] not in ADDR:
+                continue
+            for a in t["args"]:
+                if a["k"] in ("copy", "move") and a["p"]["local"] in tainted:
+                    bad.append((fn["name"], tainted[a["p"]["local"]], t["span"]))
+        fname = {cx.ROWS: "num_rows", cx.COLS: "num_cols"}
+        RT.inst(b.ident, "no buffer-addressing call (drain / rotate / index / pointer arithmetic) takes a dimension read after the function overwrote it (%d such reads, all feeding set_len products or comparisons only)" % nread, not bad)
+        seen_b = set()
+        for nm, (fld, rsp), sp in bad:
+            if (nm, fld) in seen_b:
+                continue
+            seen_b.add((nm, fld))
+            RT.fail(b.ident, "stale:%s->%s" % (fname.get(fld, fld), nm), "%s computes the argument of %s from self.%s read after the function has already changed that field: the removed / inserted line's extent is then computed from the new dimension (e.g. an empty range when the last line is removed)" % (b.ident, nm, fname.get(fld, fld)), b.where(sp))
     RU.require_floor(n_fn, 7, "shape-writing functions")
     RH.require_floor(n_raw, 11, "raw-move call sites")
     RD.require_floor(n_drain, 1, "Vec::drain sites over the array buffer")
-    return [RU, RL, RD, RH, RR, RS], {"writers": [b.ident for b in writers], "raw_sites": n_raw, "delegators": [b.ident for b in delegators], "adt_entry": {k: sorted(v) for k, v in adt_entry.items() if "toodee" in k or "iter::" in k}}
+    return [RU, RL, RD, RH, RR, RS, RO, RT], {"writers": [b.ident for b in writers], "raw_sites": n_raw, "delegators": [b.ident for b in delegators], "adt_entry": {k: sorted(v) for k, v in adt_entry.items() if "toodee" in k or "iter::" in k}}
